@@ -101,14 +101,17 @@ def program(spec, pname, tier, cap):
                   desc="rejected => Err(f(s)) with s unchanged and f called once; accepted => Ok and f not called; from_str and try_from; every valid UTF-8 s <= %d bytes" % N,
                   bound={"N_bytes": N, "alphabet": "all valid UTF-8"}, min_covers=ncov, functions=fns)]
     ws = witness_inputs(spec, limit=(16 if tier == "quick" else 48))
-    wb = []
-    for w in ws:
-        wb.append("    { let ss = SymStr::<16>::fixed(%s); let s = ss.as_str(); let o = oracle(ss.bytes()); let c0 = calls();" % rust_bytes(w.encode()))
-        wb.append("      let r = <%s as core::str::FromStr>::from_str(s); let c1 = calls(); check_custom(&r, o, ss.bytes(), c0, c1);" % E)
-        wb.append("      let t = <%s as core::convert::TryFrom<&str>>::try_from(s); let c2 = calls(); check_custom(&t, o, ss.bytes(), c1, c2); }" % E)
-    hs.append(Harness(name="h_custom_err_witness", body="\n".join(wb), unwind=20, kind="witness",
-                      desc="fixed inputs derived from the spellings (case flips, outer whitespace, one-char edits, look-alikes): %s" % ", ".join(repr(w) for w in ws),
-                      bound={"inputs": ws}, functions=fns))
+    # small chunks: a changed tree may route concrete inputs through code CBMC cannot fold (from_utf8, Unicode tables)
+    for ci in range(0, len(ws), 3):
+        chunk = ws[ci:ci + 3]
+        wb = []
+        for w in chunk:
+            wb.append("    { let ss = SymStr::<16>::fixed(%s); let s = ss.as_str(); let o = oracle(ss.bytes()); let c0 = calls();" % rust_bytes(w.encode()))
+            wb.append("      let r = <%s as core::str::FromStr>::from_str(s); let c1 = calls(); check_custom(&r, o, ss.bytes(), c0, c1);" % E)
+            wb.append("      let t = <%s as core::convert::TryFrom<&str>>::try_from(s); let c2 = calls(); check_custom(&t, o, ss.bytes(), c1, c2); }" % E)
+        hs.append(Harness(name="h_custom_err_witness_%d" % (ci // 3), body="\n".join(wb), unwind=20, kind="witness",
+                          desc="fixed inputs derived from the spellings (case flips, outer whitespace, one-char edits, look-alikes): %s" % ", ".join(repr(w) for w in chunk),
+                          bound={"inputs": chunk}, functions=fns))
     return Program(name=pname, enum_src=src, helper_src=helper, api_src=api, harnesses=hs, summary=render_enum(spec), role=spec.role, note=spec.note)
 
 
